@@ -196,6 +196,15 @@ func selfDigest() string {
 		sum += v * len(k)
 	}
 	w(strconv.Itoa(sum) + strconv.FormatBool(ok) + strconv.Itoa(len(m)))
+	// the clear builtin on maps and slices
+	clear(m)
+	m["z"] = 9
+	cs := []int{1, 2, 3}
+	cl := cs[:2]
+	clear(cl)
+	cp := []*int{&cs[2], nil}
+	clear(cp)
+	w(strconv.Itoa(len(m)) + strconv.Itoa(m["z"]) + strconv.Itoa(cs[0]+cs[1]*10+cs[2]*100) + strconv.FormatBool(cp[0] == nil))
 	type key struct {
 		x int
 		s string
